@@ -24,6 +24,10 @@ R4  params / req / resp are created per call and never parked on ``self``.
 R7  a raised exception OBJECT is private to the call that raises it: ``raise <name>`` / ``raise self.<attr>`` of an exception instance
     constructed in an enclosing function scope (closure), at module level or on a non-per-request object is a violation (seeded s8-c19-1).
 
+R8  ``wrap_sync_to_async(func, threadsafe=False)``: the executor the wrapper submits to is ONE process-wide object shared by all wrappers
+    (module level, or memoised once by a zero-argument getter; max_workers=1; never rebound) - an executor constructed inside the factory
+    or the wrapper, the default pool, or more than one worker is a violation (seeded s10-c19-3).
+
 R2 (wave 8) also covers the per-request objects that hold a HANDLE on shared configuration: an attribute that a per-request class's
 ``__init__`` binds to a parameter annotated with a configuration class (a class an instance of which a shared object creates and keeps in
 its own ``__init__``: MultipartParseOptions, RequestOptions, ResponseOptions, ...; derived, printed as c19_configuration_classes /
@@ -399,11 +403,19 @@ class RouterModel:
         self.init = p.func(ROUTER + '.__init__')
         self.find = p.func(ROUTER + '.find')
         self.lock = None
-        for n in walk_self(self.init.node):
-            if isinstance(n, ast.Assign) and len(n.targets) == 1 and _self_attr(n.targets[0]) and isinstance(n.value, ast.Call):
-                q = p.resolve_expr(self.init.module, n.value.func, self.init)
-                if q in ('threading.Lock', 'threading.RLock'):
-                    self.lock = n.targets[0].attr
+        # the compile lock: the attribute of self that receives threading.Lock() / RLock().  It is looked for in the
+        # constructor first; a router that creates it anywhere else (lock_created_late: [(method, statement)]) still HAS a
+        # lock -- whether that creation is sound is R1's verdict, not an anchor failure.  No lock at all: AnchorError.
+        self.lock_created_late: List[Tuple[Func, ast.AST]] = []
+        for attr, n in self._lock_stores(self.init):
+            self.lock = attr
+        if self.lock is None:
+            late = [(m, attr, n) for _nm, m in sorted(self.cls.methods.items()) if m is not self.init for attr, n in self._lock_stores(m)]
+            if len({attr for _m, attr, _n in late}) > 1:
+                raise UnknownIdiom('%s: several attributes receive a threading.Lock(): %s' % (ROUTER, sorted({a for _m, a, _n in late})))
+            for m, attr, n in late:
+                self.lock = attr
+                self.lock_created_late.append((m, n))
         if self.lock is None:
             raise AnchorError('%s.__init__ creates no threading.Lock' % ROUTER)
         self._w: Dict[str, Set[str]] = {}
@@ -431,6 +443,89 @@ class RouterModel:
         self.tables = [(i, a.attr) for i, a in enumerate(self.find_args) if _self_attr(a) and p.lookup_method(ROUTER, a.attr) is None]
         if len(self.tables) < 2:
             raise AnchorError('%s: the finder is not called with the router tables' % self.find.qual)
+
+    # -- the compile lock ------------------------------------------------------
+
+    def _lock_stores(self, m: Func) -> List[Tuple[str, ast.AST]]:
+        """(attribute, statement) for every `self.<attr> = threading.Lock()` / `RLock()` of the method m (chained targets
+        `lock = self.<attr> = Lock()` and annotated assignments included)"""
+        out = []
+        for n in walk_self(m.node):
+            if isinstance(n, ast.Assign):
+                tg, v = n.targets, n.value
+            elif isinstance(n, ast.AnnAssign) and n.value is not None:
+                tg, v = [n.target], n.value
+            else:
+                continue
+            if isinstance(v, ast.Call) and self.p.resolve_expr(m.module, v.func, m) in ('threading.Lock', 'threading.RLock'):
+                for t in tg:
+                    if _self_attr(t):
+                        out.append((t.attr, n))
+        return out
+
+    def is_lock_expr(self, f: Func, e) -> bool:
+        """e denotes the router's compile lock inside f: `self.<lock>`, or a local EVERY binding of which in f takes the
+        object from / stores the object into `self.<lock>` (`lock = self.<lock>`, `lock = self.<lock> = Lock()`)"""
+        if _self_attr(e, self.lock):
+            return True
+        if not isinstance(e, ast.Name) or e.id in f.params():
+            return False
+        vals, others, handler = _local_bindings(f, e.id)
+        if others or handler or not vals or _declared_outer(f, e.id):
+            return False
+        for n in walk_self(f.node):
+            if isinstance(n, ast.Assign) and any(isinstance(t, ast.Name) and t.id == e.id for t in n.targets):
+                if not (_self_attr(n.value, self.lock) or any(_self_attr(t, self.lock) for t in n.targets)):
+                    return False
+            elif isinstance(n, ast.AnnAssign) and n.value is not None and isinstance(n.target, ast.Name) and n.target.id == e.id:
+                if not _self_attr(n.value, self.lock):
+                    return False
+            elif isinstance(n, ast.NamedExpr) and n.target.id == e.id:
+                if not _self_attr(n.value, self.lock):
+                    return False
+        return True
+
+    # -- looking through side-effect-free helpers ---------------------------------
+
+    def _summary(self, m: Func):
+        """the expression a same-class property / zero-argument helper method evaluates to when its body is ONE
+        `return <expr>` (docstring aside) and it writes no router state; else None"""
+        if m.cls is None or self.writes(m) or any(d in ('staticmethod', 'classmethod') for d in m.decorators):
+            return None
+        ps = m.params()
+        if not ps or ps[0] != 'self':
+            return None
+        body = [s_ for s_ in m.node.body if not (isinstance(s_, ast.Expr) and isinstance(s_.value, ast.Constant) and isinstance(s_.value.value, str))]
+        if len(body) == 1 and isinstance(body[0], ast.Return) and body[0].value is not None:
+            return body[0].value
+        return None
+
+    def inline_pure(self, e, depth=0):
+        """copy of the expression e in which every read of a same-class property `self.<p>` and every call `self.<h>()` of a
+        zero-argument helper -- side-effect free, body = one return -- is replaced by the returned expression (3 levels)"""
+        rm = self
+
+        class Inl(ast.NodeTransformer):
+            def visit_Call(self, node):
+                if _self_attr(node.func) and not node.args and not node.keywords and depth < 3:
+                    m = rm.p.lookup_method(ROUTER, node.func.attr)
+                    if m is not None and not m.is_property() and len(m.params()) == 1:
+                        r = rm._summary(m)
+                        if r is not None:
+                            return rm.inline_pure(r, depth + 1)
+                return self.generic_visit(node)
+
+            def visit_Attribute(self, node):
+                if _self_attr(node) and isinstance(node.ctx, ast.Load) and depth < 3:
+                    m = rm.p.lookup_method(ROUTER, node.attr)
+                    if m is not None and m.is_property():
+                        r = rm._summary(m)
+                        if r is not None:
+                            return rm.inline_pure(r, depth + 1)
+                return self.generic_visit(node)
+
+        import copy
+        return Inl().visit(copy.deepcopy(e))
 
     # -- finder call sites ---------------------------------------------------
 
@@ -584,7 +679,11 @@ def r1_compile_lock(run):
     cfg = cfg_of(f, p)
     run.use_cfg(cfg)
     run.use_cfg(cfg_of(rm.find, p))
-    withs = [n for n in cfg.live_nodes() if n.kind == 'with' and any(_self_attr(i.context_expr, rm.lock) for i in n.stmt.items)]
+    withs = [n for n in cfg.live_nodes() if n.kind == 'with' and any(rm.is_lock_expr(f, i.context_expr) for i in n.stmt.items)]
+    any_with: Set[int] = set()
+    for n in cfg.live_nodes():
+        if n.kind == 'with':
+            any_with |= nodes_within(cfg, n.stmt.body)
     region: Set[int] = set()
     for w in withs:
         region |= nodes_within(cfg, w.stmt.body)
@@ -616,6 +715,7 @@ def r1_compile_lock(run):
                               'A loads the compiled finder and calls it with the stale tables -> IndexError (500)')
     # every write reachable from the stub is inside `with self.<lock>`
     n_w = 0
+    lock_writes: List = []
     for n in cfg.live_nodes():
         written: Set[str] = set()
         construct = None
@@ -633,6 +733,21 @@ def r1_compile_lock(run):
                 construct = construct or st
         if not written:
             continue
+        if rm.lock in written:
+            # the lock that serialises the first compile is itself (re)bound on the request path
+            lock_writes.append(n)
+            if n.id in (any_with - region):
+                raise UnknownIdiom('%s: self.%s is bound inside another `with` block (%s); whether that block serialises the creation of the '
+                                   'compile lock is not understood' % (f.qual, rm.lock, n.text()))
+            run.fail('lazy compile: the lock self.%s that serialises the first compilation is created by the constructor, before the router is shared; '
+                     'here it is created/rebound on the request path (check-then-act on shared state: every racing first request may install and '
+                     'take ITS OWN lock)' % rm.lock, f, construct if construct is not None else n.text(), where='%s:%s' % (f.file, n.lineno),
+                     witness=['%s: %s' % (m_.loc(s_), short(s_)) for m_, s_ in rm.lock_created_late] or None,
+                     runtime_witness='two first-ever requests both read self.%s as None, each creates a Lock of its own, both pass the re-check '
+                                     'and run the table builder concurrently: one renders the other\'s half-built tree -> 500 / 404 for a valid route' % rm.lock)
+            written.discard(rm.lock)
+            if not written:
+                continue
         n_w += 1
         run.check(n.id in region, 'lazy compile: the write of %s happens inside `with self.%s`' % (', '.join(sorted(written)), rm.lock), f,
                   construct if construct is not None else n.text(), where='%s:%s' % (f.file, n.lineno),
@@ -640,6 +755,14 @@ def r1_compile_lock(run):
                                   '-> wrong route / IndexError / 404')
     if n_w == 0:
         raise AnchorError('%s writes nothing' % f.qual)
+    if rm.lock_created_late and not lock_writes:
+        # created neither by the constructor nor on the lazy-compile path: some other method (configuration time?) owns it
+        raise UnknownIdiom('%s: the compile lock self.%s is created by %s, neither by the constructor nor on the lazy-compile path; '
+                           'whether it exists before the router is shared is not understood'
+                           % (ROUTER, rm.lock, ', '.join(sorted({m_.name for m_, _s in rm.lock_created_late}))))
+    if not lock_writes:
+        run.ok('lazy compile: the lock self.%s is created by the constructor and never rebound on the lazy-compile path' % rm.lock,
+               rm.init.loc(), 'self.%s = Lock() in __init__ only' % rm.lock)
     # publication of the finder: inside the lock, re-checked, after the build
     pubs = [n for n in cfg.live_nodes() if n.kind == 'stmt' and isinstance(n.ast, ast.Assign) and any(_self_attr(t, rm.slot) for t in n.ast.targets)]
     if not pubs:
@@ -656,14 +779,32 @@ def r1_compile_lock(run):
                     return False
         return None
 
+    def recheck_expr(t):
+        """the test as a predicate over self.<slot>: same-class side-effect-free properties / zero-argument helpers inlined
+        (`not self.is_compiled` with `is_compiled = self._find != self._stub` reads `not (self._find != self._stub)`), a local
+        bound once UNDER THE LOCK replaced by its value"""
+        import copy
+        e = copy.deepcopy(t.ast)
+
+        class Loc(ast.NodeTransformer):
+            def visit_Name(self, node):
+                if isinstance(node.ctx, ast.Load):
+                    d = _single_def(f, node.id)
+                    if d is not None:
+                        ids = cfg.nodes_for(d)
+                        if ids and all(i in region for i in ids) and all(flow.dominated_by_nodes(cfg, t.id, [i]) for i in ids):
+                            return copy.deepcopy(d.value)
+                return node
+
+        return rm.inline_pure(Loc().visit(e))
+
+    tests_in_region = [(t, recheck_expr(t)) for t in cfg.live_nodes() if t.kind == 'test' and t.id in region]
     for s in pubs:
         ok = False
-        for t in cfg.live_nodes():
-            if t.kind != 'test' or t.id not in region:
-                continue
+        for t, texpr in tests_in_region:
             for lab, truth in (('T', True), ('F', False)):
                 for pol in (True, False):
-                    r = implied(t.ast, truth, lambda e, pol=pol: still_stub(e) is pol)
+                    r = implied(texpr, truth, lambda e, pol=pol: still_stub(e) is pol)
                     if r is not None and (r if pol else not r) is True and any(flow.dominated_by_edge(cfg, s.id, e) for e in flow.edges_out(cfg, t.id, lab)):
                         ok = True
         run.check(ok, 'lazy compile: under the lock it is re-checked that the finder slot still holds the stub (only one compilation)', f, s.ast,
@@ -1842,6 +1983,421 @@ def r7_raised_errors_fresh(run):
         raise AnchorError('only %d `raise C(...)` statements found in the package: the scan does not see the code' % n_calls)
 
 
+# ---------------------------------------------------------------------------
+# R8  threadsafe=False: ONE process-wide single-thread executor
+# ---------------------------------------------------------------------------
+
+SYNC_WRAP = 'falcon.util.sync.wrap_sync_to_async'
+SYNC_WRAP_FLAG = 'threadsafe'       # public keyword argument of wrap_sync_to_async
+# documented promise (docstring of wrap_sync_to_async; tabled, not re-read from the source text):
+#   "If the callable is not thread-safe, it can be scheduled serially in a global single-threaded executor."
+#   "When this argument is ``False``, the wrapped callable will be scheduled to run serially in a global single-threaded executor."
+# i.e. ALL callables wrapped with threadsafe=False are serialised against EACH OTHER (two methods of one non-thread-safe client object,
+# wrapped separately, never overlap), not merely the calls of one wrapper.
+EXECUTOR_CTORS = ('concurrent.futures.ThreadPoolExecutor', 'concurrent.futures.thread.ThreadPoolExecutor')
+_SYNC_PRIMITIVES = ('Lock', 'RLock', 'Semaphore', 'BoundedSemaphore', 'Condition')
+
+_UNK = object()
+
+
+def _abs_value(e, env):
+    """value of the expression e over the finite environment env (name -> None/True/False); _UNK when not determined"""
+    if isinstance(e, ast.Constant):
+        return e.value
+    if isinstance(e, ast.Name):
+        return env.get(e.id, _UNK)
+    if isinstance(e, ast.NamedExpr):
+        return _abs_value(e.value, env)
+    if isinstance(e, ast.UnaryOp) and isinstance(e.op, ast.Not):
+        v = _abs_value(e.operand, env)
+        return _UNK if v is _UNK else (not v)
+    if isinstance(e, ast.Call) and isinstance(e.func, ast.Name) and e.func.id == 'bool' and len(e.args) == 1 and not e.keywords:
+        v = _abs_value(e.args[0], env)
+        return _UNK if v is _UNK else bool(v)
+    if isinstance(e, ast.Compare) and len(e.ops) == 1:
+        a, b = _abs_value(e.left, env), _abs_value(e.comparators[0], env)
+        if a is _UNK or b is _UNK:
+            return _UNK
+        op = e.ops[0]
+        if isinstance(op, ast.Is):
+            return a is b
+        if isinstance(op, ast.IsNot):
+            return a is not b
+        if isinstance(op, ast.Eq):
+            return a == b
+        if isinstance(op, ast.NotEq):
+            return a != b
+        return _UNK
+    if isinstance(e, ast.BoolOp):
+        # Python semantics: `and` yields the first falsy operand (else the last), `or` the first truthy one
+        last = _UNK
+        for x in e.values:
+            v = _abs_value(x, env)
+            if v is _UNK:
+                return _UNK
+            last = v
+            if isinstance(e.op, ast.And) and not v:
+                return v
+            if isinstance(e.op, ast.Or) and v:
+                return v
+        return last
+    if isinstance(e, ast.IfExp):
+        c = _abs_value(e.test, env)
+        if c is _UNK:
+            return _UNK
+        return _abs_value(e.body if c else e.orelse, env)
+    return _UNK
+
+
+def _bindings_at_exit(p, g: Func, name: Optional[str], env0: Dict[str, object]) -> List[Tuple[Optional[ast.AST], Dict[str, object]]]:
+    """[(value expression last bound to the local `name` (None: unbound), environment at the exit)] over every path of g from its entry
+    to its normal exit that is feasible when the names of env0 have the given values.  The environment follows the locals: a name
+    assigned a determined value (constant, comparison / not / and / or / conditional over determined names) joins it, a name bound to
+    anything else leaves it.  Tests determined by the environment select one branch; other tests fork.  A binding of `name` that is not
+    a plain assignment is UnknownIdiom."""
+    cfg = cfg_of(g, p)
+    out = []
+    seen = set()
+
+    def freeze(env):
+        return tuple(sorted(env.items(), key=lambda kv: kv[0]))
+
+    work = [(cfg.entry, None, freeze(env0))]
+    binds: Dict[int, ast.AST] = {}
+    while work:
+        nid, b, envt = work.pop()
+        key = (nid, b, envt)
+        if key in seen:
+            continue
+        seen.add(key)
+        env = dict(envt)
+        b0 = b
+        node = cfg.nodes[nid]
+        if nid == cfg.exit:
+            out.append((binds.get(b), env))
+            continue
+        allowed = None
+
+        def forget(names, what):
+            if name is not None and name in names:
+                raise UnknownIdiom('%s: %s is bound by %s' % (g.qual, name, what))
+            for nm in names:
+                env.pop(nm, None)
+
+        if node.kind == 'stmt':
+            a = node.ast
+            tg, v = [], None
+            if isinstance(a, ast.Assign):
+                tg, v = a.targets, a.value
+            elif isinstance(a, ast.AnnAssign) and a.value is not None:
+                tg, v = [a.target], a.value
+            elif isinstance(a, (ast.AugAssign, ast.Delete)):
+                ts = [a.target] if isinstance(a, ast.AugAssign) else a.targets
+                forget([x.id for t in ts for x in ast.walk(t) if isinstance(x, ast.Name) and isinstance(x.ctx, (ast.Store, ast.Del))], short(a))
+            elif isinstance(a, (ast.Import, ast.ImportFrom)):
+                forget([(al.asname or al.name).split('.')[0] for al in a.names], short(a))
+            for t in tg:
+                if isinstance(t, ast.Name):
+                    if name is not None and t.id == name:
+                        binds[id(v)] = v
+                        b = id(v)
+                    else:
+                        nv = _abs_value(v, env)
+                        if nv is _UNK:
+                            env.pop(t.id, None)
+                        else:
+                            env[t.id] = nv
+                else:
+                    forget([x.id for x in ast.walk(t) if isinstance(x, ast.Name) and isinstance(x.ctx, ast.Store)], short(a))
+        elif node.kind == 'iter':
+            forget([x.id for x in ast.walk(node.stmt.target) if isinstance(x, ast.Name)], 'a for loop')
+        elif node.kind == 'with':
+            forget([x.id for it in node.stmt.items if it.optional_vars is not None for x in ast.walk(it.optional_vars) if isinstance(x, ast.Name)], 'a with statement')
+        elif node.kind == 'handler':
+            if getattr(node.ast, 'name', None):
+                forget([node.ast.name], 'an except clause')
+        elif node.kind == 'test':
+            v = _abs_value(node.ast, env)
+            if v is not _UNK:
+                allowed = 'T' if v else 'F'
+        forget([x.target.id for x in node.walk() if isinstance(x, ast.NamedExpr) and isinstance(x.target, ast.Name)], 'a := expression')
+        envt2 = freeze(env)
+        for j, lab in cfg.succ[nid]:
+            if allowed is not None and lab in ('T', 'F') and lab != allowed:
+                continue
+            if lab == 'exc':
+                work.append((j, b0, envt))      # the statement may not have completed
+                if node.kind != 'stmt':
+                    work.append((j, b, envt2))
+                continue
+            work.append((j, b, envt2))
+    return out
+
+
+def _common_env(envs: List[Dict[str, object]]) -> Dict[str, object]:
+    """the names that have the same determined value in every environment"""
+    if not envs:
+        return {}
+    out = dict(envs[0])
+    for e in envs[1:]:
+        for k in list(out):
+            if k not in e or e[k] is not out[k] and e[k] != out[k] or type(e[k]) is not type(out[k]):
+                del out[k]
+    return out
+
+
+def _executor_ctor(p, module, func, e) -> bool:
+    return isinstance(e, ast.Call) and p.resolve_expr(module, e.func, func) in EXECUTOR_CTORS
+
+
+def _max_workers(p, module, call: ast.Call):
+    """folded max_workers of an executor constructor call (None: left to the default = many threads)"""
+    e = call.args[0] if call.args else None
+    for k in call.keywords:
+        if k.arg == 'max_workers':
+            e = k.value
+        elif k.arg is None:
+            raise UnknownIdiom('executor constructed with **kwargs: %s' % short(call))
+    if e is None or (isinstance(e, ast.Constant) and e.value is None):
+        return None
+    v = p.fold(module, e)
+    if not isinstance(v, int) or isinstance(v, bool):
+        raise UnknownIdiom('max_workers of %s is not a constant' % short(call))
+    return v
+
+
+def _memo_getter_ctor(p, h: Func):
+    """the constructor call of a zero-argument module-level function that creates ONE executor for the process and hands the same
+    object to every caller: (a) lru_cache/cache-decorated with every return a constructor call; (b) `global G` + every assignment to G
+    a constructor call made only when `G is None` (the module binds G = None) + every return is G.  None when h is not such a function."""
+    if h.parent is not None or h.cls is not None or h.is_async:
+        return None
+    a = h.node.args
+    if a.posonlyargs or a.args or a.kwonlyargs or a.vararg or a.kwarg:
+        return None
+    rets = [r for r in walk_self(h.node) if isinstance(r, ast.Return)]
+    if not rets or any(r.value is None for r in rets):
+        return None
+    if _lru_decorated(p, h):
+        if all(_executor_ctor(p, h.module, h, r.value) for r in rets) and len(rets) == 1:
+            return rets[0].value
+        return None
+    gl = [nm for n in walk_self(h.node) if isinstance(n, ast.Global) for nm in n.names]
+    if len(gl) != 1:
+        return None
+    G = gl[0]
+    if not all(isinstance(r.value, ast.Name) and r.value.id == G for r in rets):
+        return None
+    top = h.module.consts.get(G)
+    if not (isinstance(top, ast.Constant) and top.value is None):
+        return None
+    cfg = cfg_of(h, p)
+    ctor = None
+    for n in cfg.live_nodes():
+        if n.kind != 'stmt':
+            continue
+        s_ = n.ast
+        tg = s_.targets if isinstance(s_, ast.Assign) else [s_.target] if isinstance(s_, (ast.AnnAssign, ast.AugAssign)) else s_.targets if isinstance(s_, ast.Delete) else []
+        if not any(isinstance(t, ast.Name) and t.id == G for t in tg):
+            continue
+        if not isinstance(s_, (ast.Assign, ast.AnnAssign)) or not _executor_ctor(p, h.module, h, s_.value) or ctor is not None:
+            return None
+        guarded = False
+        for t in cfg.live_nodes():
+            if t.kind != 'test':
+                continue
+            for lab, truth in (('T', True), ('F', False)):
+                def is_none(e):
+                    return isinstance(e, ast.Compare) and len(e.ops) == 1 and isinstance(e.ops[0], ast.Is) and isinstance(e.left, ast.Name) \
+                        and e.left.id == G and isinstance(e.comparators[0], ast.Constant) and e.comparators[0].value is None
+
+                def is_set(e):
+                    return (isinstance(e, ast.Name) and e.id == G) or (
+                        isinstance(e, ast.Compare) and len(e.ops) == 1 and isinstance(e.ops[0], ast.IsNot) and isinstance(e.left, ast.Name)
+                        and e.left.id == G and isinstance(e.comparators[0], ast.Constant) and e.comparators[0].value is None)
+                if (implied(t.ast, truth, is_none) is True or implied(t.ast, truth, is_set) is False) \
+                        and any(flow.dominated_by_edge(cfg, n.id, e_) for e_ in flow.edges_out(cfg, t.id, lab)):
+                    guarded = True
+        if not guarded:
+            return None
+        ctor = s_.value
+    return ctor
+
+
+def r8_serial_executor(run):
+    """``wrap_sync_to_async(func, threadsafe=False)`` promises that the callable runs "serially in a GLOBAL single-threaded executor"
+    (tabled above): every callable wrapped that way is serialised against every other one.  Decided structurally (who may construct the
+    executor / who shares it): the first argument of the wrapper's ``run_in_executor(...)`` is evaluated abstractly for
+    ``threadsafe`` = False over the factory's control flow (the closure sees the value bound when the factory returns); every value it can
+    take must be ONE process-wide object -- a module-level name bound to ``ThreadPoolExecutor(max_workers=1)`` that no function rebinds, or
+    the result of a zero-argument getter that memoises exactly one such executor for the process -- with max_workers folding to 1.
+    An executor constructed inside the factory or the wrapper (one per wrapped callable / per call), the loop's default (multi-threaded)
+    executor, or a pool with more than one worker is a VIOLATION.
+    W: ``deposit = wrap_sync_to_async(ledger.deposit, threadsafe=False)`` and ``withdraw = wrap_sync_to_async(ledger.withdraw,
+    threadsafe=False)``; two concurrent ASGI requests await one each: with an executor per wrapper both run at once on the non-thread-safe
+    ledger and the final balance matches no serial order."""
+    p = run.project
+    fac = p.func(SYNC_WRAP)
+    if SYNC_WRAP_FLAG not in fac.params():
+        raise AnchorError('%s has no parameter %s' % (SYNC_WRAP, SYNC_WRAP_FLAG))
+    run.use_cfg(cfg_of(fac, p))
+    sites = []
+    for g in [fac] + list(fac.nested.values()):
+        for c in walk_self(g.node):
+            if isinstance(c, ast.Call) and isinstance(c.func, ast.Attribute) and c.func.attr == 'run_in_executor':
+                sites.append((g, c))
+    g, call = single(sites, 'run_in_executor(...) call', SYNC_WRAP)
+    if g is fac:
+        raise UnknownIdiom('%s submits to the executor itself (not from the returned coroutine function)' % SYNC_WRAP)
+    if not call.args or isinstance(call.args[0], ast.Starred):
+        raise UnknownIdiom('%s: executor argument of %s' % (g.qual, short(call)))
+    run.use(g)
+
+    def has_other_sync():
+        for h in (fac, g):
+            for n in walk_self(h.node):
+                if isinstance(n, (ast.With, ast.AsyncWith)):
+                    return True
+                if isinstance(n, (ast.Name, ast.Attribute)) and (n.id if isinstance(n, ast.Name) else n.attr) in _SYNC_PRIMITIVES:
+                    return True
+        return False
+
+    def evaluate(h: Func, e, env, depth=0) -> List[Tuple[str, object, object]]:
+        """[(kind, object, where)]: default | module (qual, ctor) | memo (getter, ctor) | fresh (func, ctor)"""
+        if depth > 6:
+            raise UnknownIdiom('%s: executor expression too deep' % h.qual)
+        if isinstance(e, ast.Constant) and e.value is None:
+            return [('default', None, e)]
+        if isinstance(e, ast.NamedExpr):
+            return evaluate(h, e.value, env, depth + 1)
+        if isinstance(e, ast.IfExp):
+            c = _abs_value(e.test, env)
+            arms = [e.body, e.orelse] if c is _UNK else [e.body if c else e.orelse]
+            return [r for x in arms for r in evaluate(h, x, env, depth + 1)]
+        if isinstance(e, ast.BoolOp) and isinstance(e.op, ast.Or) and len(e.values) == 2:
+            # `x or y`: an executor object is truthy, None is not
+            out = []
+            for r in evaluate(h, e.values[0], env, depth + 1):
+                out += evaluate(h, e.values[1], env, depth + 1) if r[0] == 'default' else [r]
+            return out
+        if isinstance(e, ast.Call):
+            if _executor_ctor(p, h.module, h, e):
+                return [('fresh', h, e)]
+            t = p.resolve_callable(h, e.func)
+            if isinstance(t, Func) and not e.args and not e.keywords:
+                ctor = _memo_getter_ctor(p, t)
+                if ctor is not None:
+                    run.use(t)
+                    return [('memo', t, ctor)]
+            raise UnknownIdiom('%s: the executor is the result of %s, which is not understood' % (h.qual, short(e)))
+        if isinstance(e, ast.Name):
+            # a local of h, a local of an enclosing function (closure: the value bound when that function returns), a module-level name
+            k = h
+            while k is not None:
+                if _declared_outer(k, e.id):
+                    break
+                bound_here = _rebinds(k, e.id)
+                if e.id in k.params() and not bound_here:
+                    if k is fac and e.id in env0:
+                        return evaluate(k, ast.Constant(env0[e.id]), env0, depth + 1)
+                    raise UnknownIdiom('%s: the executor is the parameter %s' % (k.qual, e.id))
+                if bound_here:
+                    out = []
+                    for v, env2 in _bindings_at_exit(p, k, e.id, scope_env(k)):
+                        if v is None:
+                            if e.id in k.params():
+                                raise UnknownIdiom('%s: the executor is the parameter %s' % (k.qual, e.id))
+                            raise UnknownIdiom('%s: %s may be unbound' % (k.qual, e.id))
+                        out += evaluate(k, v, env2, depth + 1)
+                    return out
+                k = k.parent
+            q = p.resolve_expr(h.module, e, h)
+            return module_level(h, q, e)
+        if isinstance(e, ast.Attribute):
+            return module_level(h, p.resolve_expr(h.module, e, h), e)
+        raise UnknownIdiom('%s: executor expression %s' % (h.qual, short(e)))
+
+    def module_level(h, q, e):
+        if q is None:
+            raise UnknownIdiom('%s: executor %s is not a resolvable name' % (h.qual, short(e)))
+        q = p.canonical(q)
+        mod, _, nm = q.rpartition('.')
+        m = p.modules.get(mod)
+        if m is None or nm not in m.consts:
+            raise UnknownIdiom('%s: executor %s (%s) is not a module-level object of the package' % (h.qual, short(e), q))
+        v = m.consts[nm]
+        if _executor_ctor(p, m, None, v):
+            return [('module', q, v)]
+        if isinstance(v, ast.Constant) and v.value is None:
+            raise UnknownIdiom('%s: module-level %s is None at import time and filled in later' % (h.qual, q))
+        raise UnknownIdiom('%s: module-level %s = %s' % (h.qual, q, short(v)))
+
+    env0 = {SYNC_WRAP_FLAG: False}
+    _envs: Dict[str, Dict[str, object]] = {}
+
+    def scope_env(k: Func) -> Dict[str, object]:
+        """what is known on entry to k: the factory starts from threadsafe=False; a nested function sees the determined locals the
+        enclosing function has when it returns (minus the names the nested function binds itself)"""
+        if k.qual not in _envs:
+            if k is fac:
+                _envs[k.qual] = dict(env0)
+            elif k.parent is None:
+                _envs[k.qual] = {}
+            else:
+                outer = _common_env([e_ for _v, e_ in _bindings_at_exit(p, k.parent, None, scope_env(k.parent))])
+                own = set(k.params()) | {x.id for x in walk_self(k.node) if isinstance(x, ast.Name) and isinstance(x.ctx, (ast.Store, ast.Del))}
+                _envs[k.qual] = {n_: v_ for n_, v_ in outer.items() if n_ not in own}
+        return _envs[k.qual]
+
+    vals = evaluate(g, call.args[0], scope_env(g))
+    if not vals:
+        raise UnknownIdiom('%s: no value found for the executor argument' % g.qual)
+    # for a fixed value of the flag the executor is determined; several different outcomes mean that a condition this analysis cannot
+    # decide selects among them.  All of them good or all of them bad is still a verdict; a mixture is not.
+    distinct = {(k_, (o_.qual if isinstance(o_, Func) else o_), id(w_)) for k_, o_, w_ in vals}
+    kinds = {k_ in ('module', 'memo') for k_, _o, _w in vals}
+    if len(distinct) > 1 and len(kinds) > 1:
+        raise UnknownIdiom('%s: for threadsafe=False the executor is one of %s depending on a condition that is not decided'
+                           % (SYNC_WRAP, sorted('%s %s' % (k_, short(w_)) for k_, _o, w_ in vals)))
+    run.extra['c19_serial_executor'] = sorted({'%s %s' % (k, o.qual if isinstance(o, Func) else o) for k, o, _w in vals})
+    rw = ('two callables sharing a non-thread-safe object are wrapped separately with threadsafe=False; two concurrent requests await one '
+          'each: both run at the same time on different threads and the outcome matches no serial order')
+    shared = set()
+    for kind, obj, where in vals:
+        if kind == 'fresh':
+            run.fail('threadsafe=False: the executor the wrapper submits to is ONE process-wide object shared by all wrappers; here an executor is '
+                     'constructed inside %s (one per %s): callables wrapped separately are no longer serialised against each other'
+                     % (obj.name, 'call' if obj is g else 'wrapped callable'), obj, where, runtime_witness=rw)
+            continue
+        if kind == 'default':
+            if has_other_sync():
+                raise UnknownIdiom('%s: threadsafe=False submits to the default executor, but the code uses another synchronisation construct '
+                                   '(with-block / lock); that mechanism is not understood' % SYNC_WRAP)
+            run.fail('threadsafe=False: the wrapper submits to the loop\'s default (multi-threaded) executor instead of the global single-threaded one',
+                     g, call, runtime_witness=rw)
+            continue
+        shared.add(obj.qual if isinstance(obj, Func) else obj)
+        mod = obj.module if isinstance(obj, Func) else p.modules[obj.rpartition('.')[0]]
+        what = ('the getter %s()' % obj.qual) if isinstance(obj, Func) else obj
+        run.ok('threadsafe=False: the wrapper submits to the process-wide executor %s (constructed %s), shared by every wrapper'
+               % (what, 'once, memoised by the getter' if kind == 'memo' else 'at module level'), g.loc(call), call)
+        mw = _max_workers(p, mod, where)
+        run.check(mw == 1, 'threadsafe=False: the global executor has exactly one worker thread (max_workers=1), so the callables run one at a time',
+                  obj if isinstance(obj, Func) else fac, where, where=(obj.loc(where) if isinstance(obj, Func) else '%s:%s' % (mod.relpath, getattr(where, 'lineno', 0))),
+                  witness=['max_workers = %r' % (mw,)], runtime_witness=rw)
+        if kind == 'module':
+            wr = [(w, n) for (w, n) in _writers_of_symbol(p, obj)]
+            for w in p.all_functions():
+                if w.module is mod and _declares_global(w, obj.rpartition('.')[2]) and not any(w is x for x, _n in wr):
+                    if any(isinstance(x, ast.Name) and x.id == obj.rpartition('.')[2] and isinstance(x.ctx, (ast.Store, ast.Del)) for x in walk_self(w.node)):
+                        wr.append((w, w.node))
+            run.check(not wr, 'threadsafe=False: no function rebinds or replaces the global executor %s' % obj, wr[0][0] if wr else fac,
+                      (wr[0][1] if not isinstance(wr[0][1], (ast.FunctionDef, ast.AsyncFunctionDef)) else 'global %s' % obj.rpartition('.')[2]) if wr else obj,
+                      runtime_witness='wrappers created before and after the replacement submit to different executors: ' + rw)
+    if len(shared) > 1:
+        raise UnknownIdiom('%s: for threadsafe=False the executor is one of %s depending on a condition that is not decided' % (SYNC_WRAP, sorted(shared)))
+
+
 def check(run):
     run.assume('configuration-time mutation (add_route, add_error_handler, option assignment) does not race with traffic; user code is out of scope')
     run.assume('objects handed out by lru_cache-d functions are not mutated by user code')
@@ -1853,3 +2409,5 @@ def check(run):
     run.rule('R4', r4_fresh_per_call, 'params/req/resp fresh per call and never parked on self', floor=30)
     run.rule('R7', r7_raised_errors_fresh, 'a raised exception object is private to the call that raises it (no closure-captured / module-level / '
              'handler-wide exception instance is raised for every request)', floor=5)
+    run.rule('R8', r8_serial_executor, 'wrap_sync_to_async(threadsafe=False) submits to ONE process-wide single-thread executor (module level or memoised '
+             'once, max_workers=1), never to an executor constructed per wrapper / per call or to the default pool', floor=1)
